@@ -41,7 +41,8 @@ BOUNDS = (
     "out-of-zone name), corrupt type, non-zero rcode (SERVFAIL, REFUSED, NOTAUTH) on the "
     "containing message, surplus record after the final SOA in the same message, wrong "
     "question name / type} at EVERY record position, each in a seeded cut into <= 3 messages "
-    "(quick: ~25 streams; thorough: ~600). Oracle: a reference interpreter of the RFC 1995 / "
+    "(quick: 14 version chains, i.e. ~130 valid streams of which ~60 are faulted at every "
+    "position; thorough: up to 600 chains within 500 s, ~170 reached on a loaded machine). Oracle: a reference interpreter of the RFC 1995 / "
     "5936 record grammar applied to the model of the client zone: 'target zone' or 'error'; "
     "streams whose meaning the RFCs leave open (SOA,SOA answer to IXFR, out-of-zone owners, "
     "CNAME-and-other-data or several singleton RRs at one name, mixed TTLs in one RRset, "
@@ -90,6 +91,33 @@ def make_chain(rng, n_versions):
             if op["n"] == 0 and op["op"] in ("add", "replace") and M.kind_of(*M.rds_key([M.rd(k) for k in op["rds"]])) == "cname":
                 continue  # a CNAME at the apex would evict the SOA
             m.apply(op)
+        # changes inside an existing RRset: swap one member, change the TTL, or replace a
+        # singleton (these put a deletion and an addition of the same name/type next to
+        # each other in the difference sequence)
+        for _ in range(rng.choice([0, 1, 1, 2])):
+            cands = [
+                (n, key)
+                for n, node in m.c.items()
+                for key in node
+                if not (n == M.ORIGIN and key == SOA_KEY)
+            ]
+            if not cands:
+                break
+            n, key = rng.choice(cands)
+            ttl, toks = m.c[n][key]
+            pool = [
+                M.rd(k)
+                for k in M._POOL_TEXT
+                if M.rds_key([M.rd(k)]) == key and M.tok(M.rd(k)) not in toks
+            ]
+            how = rng.choice(["swap", "ttl", "swap"])
+            if how == "ttl" or not pool:
+                m.c[n][key][0] = rng.choice([t for t in (30, 60, 300, 900, 3600) if t != ttl])
+            else:
+                new = rng.choice(pool)
+                old = rng.choice(sorted(toks))
+                toks.discard(old)
+                toks.add(M.tok(new))
         inc = rng.choice([1, 1, 2, 10, 1000, 2**31 - 1])
         serial = (serial + inc) % 2**32
         if rng.random() < 0.2:
@@ -213,7 +241,14 @@ def reference(client: M.Model | None, rdtype, serial, is_udp, msgs, qerr=False):
             open_why = "out-of-zone owner"
             return
         key = M.rds_key([r])
-        e = model.c.setdefault(n, {}).get(key)
+        node = model.c.setdefault(n, {})
+        e = node.get(key)
+        # content no transfer RFC gives a meaning to (the library's node rules decide)
+        k = M.kind_of(*key)
+        if any(M.kind_of(*o) != k and "neutral" not in (k, M.kind_of(*o)) for o in node):
+            open_why = "CNAME and other data at one name"
+        if key[0] in M._SINGLETONS and e is not None and M.tok(r) not in e[1]:
+            open_why = "several singleton records at one name"
         if e is None:
             model.c[n][key] = [ttl, {M.tok(r)}]
         else:
@@ -713,8 +748,8 @@ def run(R):
     rng = R.rng
     zones = _Zones()
     stats = {"n": 0, "open": 0}
-    rounds = 25 if R.quick else 600
-    tcap = 33 if R.quick else 540
+    rounds = 14 if R.quick else 600
+    tcap = 38 if R.quick else 500
     sock_every = 12 if R.quick else 6
     counter = 0
     for rnd in range(rounds):
